@@ -52,6 +52,10 @@ MUT = [
      'apply_ticket accepts a replayed sequence number'),
     ('C31-footer-hash-unchecked', 'C31', 'src/footer.rs', "            if !footer.hash_matches(toc_bytes) {\n                search_end = pos;\n                continue;\n            }\n", "",
      'find_last_valid_footer returns a footer whose TOC hash does not match'),
+    ('C31-hash-prefix-compare', 'C31', 'src/footer.rs', "hasher.finalize().as_bytes() == &self.toc_hash", "hasher.finalize().as_bytes()[..16] == self.toc_hash[..16]",
+     'hash_matches compares only the first 16 digest bytes'),
+    ('C31-hash-skips-first-byte', 'C31', 'src/footer.rs', "        hasher.update(toc_bytes);\n        hasher.finalize().as_bytes() == &self.toc_hash", "        hasher.update(&toc_bytes[1..]);\n        hasher.finalize() == self.toc_hash",
+     'hash_matches hashes toc_bytes[1..]'),
     ('C39-probe-shift', 'C39', 'src/types/sketch_track.rs', "    let h2 = usize::try_from((token_hash >> 16) % (filter_bits as u64)).unwrap_or(0);", "    let h2 = usize::try_from((token_hash >> 17) % (filter_bits as u64)).unwrap_or(0);",
      'term filter probe uses a different bit position than the writer'),
     ('C11-frame-cut-reversed', 'C11', 'src/memvid/search/api.rs', "                if frame.id > cutoff_frame {", "                if frame.id < cutoff_frame {", 'get_replay_frame_ids keeps frames after the cut-off'),
@@ -70,6 +74,8 @@ MUT = [
     ('EQ-closure-bound-first', 'ALL', M, "        self.with_staging_lock(move |mem| mem.commit_from_records(records, mode))",
      "        let staged_commit = move |mem: &mut Self| mem.commit_from_records(records, mode);\n        self.with_staging_lock(staged_commit)",
      'EQUIVALENT: commit_with_options binds the staging closure to a local first'),
+    ('EQ-hash-one-shot', 'C31', 'src/footer.rs', "        let mut hasher = Hasher::new();\n        hasher.update(toc_bytes);\n        hasher.finalize().as_bytes() == &self.toc_hash", "        *blake3::hash(toc_bytes).as_bytes() == self.toc_hash",
+     'EQUIVALENT: hash_matches through blake3::hash and an array comparison'),
     ('EQ-rename-parent-seq', 'ALL', M, "parent_seq", "wal_sequence_of_parent", 'EQUIVALENT: put_internal/apply_records local parent_seq renamed everywhere (replace-all)'),
     ('EQ-ticket-store-order', 'ALL', 'src/memvid/ticket.rs', "        self.toc.ticket_ref.capacity_bytes = ticket.capacity_bytes.unwrap_or(0);\n        self.toc.ticket_ref.issuer = ticket.issuer;\n        self.toc.ticket_ref.seq_no = ticket.seq_no;\n        self.toc.ticket_ref.expires_in_secs = ticket.expires_in_secs;\n        self.toc.ticket_ref.verified = false; // Unsigned tickets are not verified",
      "        self.toc.ticket_ref.verified = false; // Unsigned tickets are not verified\n        self.toc.ticket_ref.expires_in_secs = ticket.expires_in_secs;\n        self.toc.ticket_ref.seq_no = ticket.seq_no;\n        self.toc.ticket_ref.issuer = ticket.issuer;\n        self.toc.ticket_ref.capacity_bytes = ticket.capacity_bytes.unwrap_or(0);",
